@@ -235,6 +235,9 @@ func (g *G) heredoc() *Heredoc {
 	}
 	if h.Dash && g.p(1, 2) {
 		h.TabTerm = true
+		if g.p(1, 2) {
+			h.MoreTabs = 1 + g.n(3) // a terminator nested two to four levels deep
+		}
 	}
 	if !h.Quoted && h.DelimText != "" && g.p(1, 12) {
 		h.ContTerm = 1 + g.n(len([]rune(h.DelimText)))
